@@ -22,8 +22,14 @@ def _mk_inputs(case, d):
         # inputs in files of their own, or all of them as groups of ONE file (e.g. the cells of a single-cell file)
         p = os.path.join(d, "in.cool") + f"::/cells/s{k}" if case.get("shared_file") else os.path.join(d, f"in{k}.cool")
         bits = case["bits_in"][k] if "bits_in" in case else case["bits"]
-        cooler.create_cooler(p, bins, gen.pixels_frame(px, cols, {c: np.int64 for c in cols}),
-                             columns=cols if cols != ["count"] else None, dtypes=_dtypes(cols, bits, case.get("unsigned", False)),
+        fr = gen.pixels_frame(px, cols, {c: np.int64 for c in cols})
+        dts = _dtypes(cols, bits, case.get("unsigned", False))
+        if case.get("scale", 1) != 1:
+            # float64 value columns holding exact multiples of 1/scale (case values are in units of 1/scale)
+            for c in cols:
+                fr[c] = fr[c].astype(np.float64) / case["scale"]
+            dts = {c: "float64" for c in cols}
+        cooler.create_cooler(p, bins, fr, columns=cols if cols != ["count"] else None, dtypes=dts,
                              ordered=True, symmetric_upper=case["mode"] == "symm", mode="a" if case.get("shared_file") else "w")
         uris.append(p)
     return uris
@@ -51,6 +57,9 @@ def mg_merge(case, ctx):
             small.append(p)
         cooler.merge_coolers(os.path.join(d, "earlier.cool"), small, mergebuf=10, dtypes=dt, **kw)
         kw["dtypes"] = dt
+    if case.get("partial_dtypes"):
+        # a dtype is given for the LAST column only; the others must still take the (common) type of the inputs
+        kw["dtypes"] = {cols[-1]: np.dtype("float64" if case.get("scale", 1) != 1 else "int64")}
     try:
         if case.get("via") == "cli":
             from click.testing import CliRunner
@@ -74,8 +83,9 @@ def mg_merge(case, ctx):
     except Exception as ex:
         return {"err": type(ex).__name__, "msg": str(ex)[:120]}
     c = cooler.Cooler(out)
-    return {"err": "", "px": project.pixel_rows(c.pixels()[:], ["bin1_id", "bin2_id", *cols]),
-            "sum": project.to_int(c.info["sum"]) if "sum" in c.info else 0, "raw": project.raw_uri(out)}
+    sc = case.get("scale", 1)
+    return {"err": "", "px": project.pixel_rows(c.pixels()[:], ["bin1_id", "bin2_id", *cols], sc),
+            "sum": project.to_int(c.info["sum"] * sc) if "sum" in c.info else 0, "raw": project.raw_uri(out, scale=sc)}
 
 
 @driver("mg.incompat")
